@@ -101,6 +101,19 @@ theorem remove_absent {g : Graph} {x : Nat} (hx : g.hasNode x = false) :
 example := remove_spec (wf_of_mapping _) (parents_keys_of_mapping _) (g := diamond) (x := 2) (by decide)
 example : (diamond.remove 2).1 = { children := [(0, [1]), (1, [])], parents := [(1, [0])] } := by decide
 
+/-! ### `TaskGraph.update_edges` -/
+
+/-- `update_edges_spec`: after `update_edges(mapping)` the graph IS the graph of the
+new mapping (nothing of the old adjacency or parent lists survives), hence well
+formed with distinct `_parent_graph` keys, so every theorem of this file applies to
+it with the edges of the new mapping. -/
+theorem update_edges_spec (g : Graph) (m : List (Nat × List Nat)) :
+    g.updateEdges m = Graph.ofMapping m ∧ (g.updateEdges m).WF ∧ ParentKeysNodup (g.updateEdges m) :=
+  ⟨rfl, wf_of_mapping m, parents_keys_of_mapping m⟩
+
+example : (diamond.updateEdges [(2, [1]), (0, [2]), (1, [])]).getSources = [0] ∧
+    (diamond.updateEdges [(2, [1]), (0, [2]), (1, [])]).parentsOf 1 = [2] := by decide
+
 /-! ### `topological_sort` -/
 
 /-- `topo_ok`: a returned order lists every node exactly once (it is a
